@@ -15,7 +15,7 @@ func init() {
 		"(dawg.AnagramSearcher).AllowStep", "(dawg.AnagramSearcher).AllowWord", "(dawg.AnagramSearcher).Chosen"}
 	register(&propDef{
 		id:          "C13",
-		explanation: "Decides the structural part of the last sentence ('a search leaves the Dawg unchanged ...'): PURE ((*Dawg).Search, with Searcher calls resolved by module-restricted CHA to both implementations, writes nothing reachable from the Dawg), SEARCHER-RO (AllowStep, AllowWord and Chosen of both searchers write nothing reachable from the receiver, including through the counts/currPath slices a value receiver still shares), STEP-ONLY (inside Search the only instructions that may write searcher memory are the interface calls Step and Backstep), BALANCE (on every path to a return each searcher has received as many Backstep as Step calls: a local stack is pushed exactly once per complete Step pass over the searchers, popped exactly once per Backstep pass, nothing else changes it, and every return is guarded by its being empty); NARROW and MASKWIDTH (narrowing integer conversions, and the shift counts of one-bit masks indexed by a position, are proved to fit: a 64-bit mask of blank positions forgets position 64). Does not decide the result set, its order, the ranks, or that Backstep exactly undoes Step.",
+		explanation: "Decides the structural part of the last sentence ('a search leaves the Dawg unchanged ...'): PURE ((*Dawg).Search, with Searcher calls resolved by module-restricted CHA to both implementations, writes nothing reachable from the Dawg), SEARCHER-RO (AllowStep, AllowWord and Chosen of both searchers write nothing reachable from the receiver, including through the counts/currPath slices a value receiver still shares), STEP-ONLY (inside Search the only instructions that may write searcher memory are the interface calls Step and Backstep), BALANCE (on every path to a return each searcher has received as many Backstep as Step calls: a local stack is pushed exactly once per complete Step pass over the searchers, popped exactly once per Backstep pass, nothing else changes it, and every return is guarded by its being empty); NARROW and MASKWIDTH (narrowing integer conversions, and the shift counts of one-bit masks indexed by a position, are proved to fit: a 64-bit mask of blank positions forgets position 64) and FIXEDARRAY (no fixed-size scratch array of package dawg is indexed by a counter that is not proved to stay in range). Does not decide the result set, its order, the ranks, or that Backstep exactly undoes Step.",
 		notDecided:  []string{"that Search returns exactly the matching words in lexicographic order with correct ranks", "that Backstep restores exactly what Step changed (letter accounting)", "that Backstep exactly undoes one Step (BALANCE only counts calls)"},
 		assumptions: []string{"searchers passed to Search are the module's PatternSearcher/AnagramSearcher (closed world); a user-defined Searcher is outside the claim"},
 		run: func(c *Ctx, tier string) []*RuleResult {
@@ -33,7 +33,8 @@ func init() {
 			searchFiles := filesOf(c, "(*dawg.Dawg).Search", "T:dawg.PatternSearcher", "T:dawg.AnagramSearcher", "dawg.NewPatternSearcher", "dawg.NewAnagramSearcher")
 			nw := ruleNarrow(c, searchFiles)
 			mw := ruleMaskWidth(c, searchFiles)
-			return []*RuleResult{pure, ro, so, bal, nw, mw}
+			fa := ruleFixedArray(c, "dawg")
+			return []*RuleResult{pure, ro, so, bal, nw, mw, fa}
 		},
 		controls: func(ctl *Ctx) []*RuleResult {
 			ro := &RuleResult{Rule: "SEARCHER-RO"}
@@ -54,7 +55,8 @@ func init() {
 			bal.Undecided = append(bal.Undecided, good.Undecided...)
 			nw := ruleNarrow(ctl, inFiles("balctl.go"))
 			mw := ruleMaskWidth(ctl, inFiles("balctl.go"))
-			return []*RuleResult{ro, so, bal, nw, mw}
+			fa := ruleFixedArray(ctl, "balctl")
+			return []*RuleResult{ro, so, bal, nw, mw, fa}
 		},
 	})
 }
@@ -912,5 +914,52 @@ func ruleMaskWidth(c *Ctx, files func(string) bool) *RuleResult {
 		}
 	}
 	r.inst("%d functions scanned for position-indexed masks", n)
+	return r
+}
+
+// ruleFixedArray: an index into a fixed-size array (a scratch buffer sized "large enough") is
+// proved to stay below its length: unlike a slice, the array cannot grow with the input, so a
+// counter that follows the input (path length, word length, number of children) overruns it.
+func ruleFixedArray(c *Ctx, pkgRel string) *RuleResult {
+	r := &RuleResult{Rule: "FIXEDARRAY", Doc: "every non-constant index into a fixed-size array is proved in range (a fixed scratch buffer does not grow with the input)", MinInst: 0}
+	for _, fn := range c.Funcs {
+		p := fnPkg(fn)
+		if p == nil || p.Pkg.Path() != c.Mod+"/"+pkgRel || fn.Synthetic != "" || fn.Blocks == nil {
+			continue
+		}
+		var P *Prover
+		for _, b := range fn.Blocks {
+			for _, in := range b.Instrs {
+				ia, ok := in.(*ssa.IndexAddr)
+				if !ok {
+					continue
+				}
+				pt, ok := ia.X.Type().Underlying().(*types.Pointer)
+				if !ok {
+					continue
+				}
+				arr, ok := pt.Elem().Underlying().(*types.Array)
+				if !ok {
+					continue
+				}
+				if _, isK := constInt(ia.Index); isK {
+					continue
+				}
+				// a one-element varargs array and similar compiler temporaries have constant indices; others are judged
+				if P == nil {
+					P = NewProver(c, fn)
+				}
+				idx := P.poly(ia.Index)
+				src := valName(ia.X) + "[" + P.showTerm(idx) + "]"
+				r.inst("%s: %s (array of %d)", c.short(fn), src, arr.Len())
+				lo := P.Prove(idx.scale(-1), b)
+				hi := P.Prove(idx.add(constP(-(arr.Len()-1)), 1), b)
+				r.oblig(lo && hi)
+				if !(lo && hi) {
+					r.find(c.short(fn)+":fixed array "+valName(ia.X), c.instrPos(ia), "%s indexes the fixed-size array %s (%d elements) with %s, which is not proved to stay in range: the array does not grow with the input", c.short(fn), valName(ia.X), arr.Len(), P.showTerm(idx))
+				}
+			}
+		}
+	}
 	return r
 }
